@@ -41,6 +41,9 @@ def run(tier, seed):
     plan = [("tut13x3", None, 40), ("tut13r", None, 25), ("tut13c", None, 25)] if quick else \
            [("tut13x3", None, 300), ("tut13x4", None, 200), ("tut13r", None, 250), ("tut13c", None, 250), ("guix3e", None, 200),
             ("getx2", None, 200), ("guic", None, 150)]
+    if not quick:
+        # generated suites (random setup DAGs, vf/parse/gensuite.py)
+        plan += [("gen:%d:%d" % (seed + 501 + i, 2 + i % 2), None, 120) for i in range(6)]
     return D.generic_run(PID, tier, seed, plan, make_jobs, signature, describe,
                          rule="randomized schedules/outcomes over mixed worker sets (restricted net3/net5, lxc swarm, two remote clusters); TLC "
                               "validates own-worker execution and named sources = shared + workers with a passing producer at every start")
